@@ -429,6 +429,9 @@ REF_TAIL = r'''
         // stand-in for Ref::prefix (proved in U-CAP-V): a slice hands back itself; a reader's prefix is some bytes or its error
         #[verifier::external_body]
         pub fn prefix(&mut self, size_hint: usize) -> (r: std::io::Result<&[u8]>)
+            // C09 / C07 (this unit's only caller is yaml::input_matches): the encoding look-ahead asks for as many bytes as
+            // Encoding::detect inspects -- with fewer, UTF-32 from a reader is mistaken for UTF-16
+            requires size_hint >= super::Encoding::DETECT_LEN,
             ensures *old(self) matches Ref::Slice(b) ==> (r matches Ok(p) && p@ == b@),
         { unimplemented!() }
     }
@@ -452,8 +455,11 @@ pub uninterp spec fn spec_detect(prefix: Seq<u8>) -> Encoding;
 impl Encoding {
     #[verifier::external_body]
     pub fn detect(prefix: &[u8]) -> (r: Encoding) ensures r == spec_detect(prefix@), { unimplemented!() }
-    pub const DETECT_LEN: usize = 4;
+'''
+ENCODING_STANDIN_2 = r'''
 }
+// the YAML 1.2.2 section 5.2 table distinguishes the encodings by up to FOUR leading bytes
+pub proof fn lemma_detect_len_covers_the_table() ensures Encoding::DETECT_LEN >= 4 { }
 // F2 (C07 / C02): a slice may go to serde_yaml directly only if it is the UTF-8 encoding of the stream
 #[verifier::external_body]
 pub broadcast proof fn axiom_utf8_stream_text_ok(s: &str)
@@ -563,6 +569,9 @@ ITEMS = [
     dict(raw=INPUT_TAIL),
     dict(src='repo:src/yaml/encoding.rs', kind='enum', name='Encoding', drop_vis=True, wrap=('pub', '')),
     dict(raw=ENCODING_STANDIN),
+    # the look-ahead length, verbatim from `impl Encoding` (visibility dropped)
+    dict(src='repo:src/yaml/encoding.rs', kind='const', name='DETECT_LEN', within_impl=r'\bimpl\s+Encoding\b', drop_vis=True, wrap=('pub', '')),
+    dict(raw=ENCODING_STANDIN_2),
     dict(raw=YAML_RS_OPEN),
     dict(src='repo:src/yaml.rs', kind='fn', name='transcode_reader',
          contract=dict(ret='r', spec='ensures true,', attrs=['#[verifier::exec_allows_no_decreases_clause]'],   # termination: the stream ends (libyaml); not proved
